@@ -140,7 +140,7 @@ impl<'o> Hist<'o> {
                 }
             }
             5 => {
-                let v = *self.rng.pick(&[1u32, 1, 8, 16, 20, 24, 48, 100, 200, 7, 9]);
+                let v = *self.rng.pick(&[1u32, 1, 8, 16, 20, 24, 48, 100, 200, 7, 9, 0]);
                 if writable {
                     self.do_set_min_seg(v);
                 }
